@@ -63,7 +63,7 @@ func (r *Runner) Exec(line string) (out string, emit bool) {
 	switch f[0] {
 	case "S", "sadd", "smerge", "scopy", "sclear", "srew", "sobs", "skr", "sencdec", "sproto":
 		return r.execStore(f[0], f[1:]), true
-	case "M", "mv", "ml", "mi", "K", "add", "q", "qs", "obs", "merge", "copy", "clear", "rew", "encchk", "dec", "decm", "same", "fe":
+	case "M", "mv", "ml", "mi", "K", "add", "q", "qs", "obs", "merge", "copy", "clear", "rew", "encchk", "dec", "decm", "same", "fe", "xpanic":
 		return r.execSketch(f[0], f[1:]), true
 	case "D", "dadd", "dlq", "duq", "dmin", "dmax", "dsum", "dcount", "dmerge":
 		return r.execDataset(f[0], f[1:]), true
